@@ -578,6 +578,7 @@ func chanOf(line string) map[string]string {
 func TestRestModel(t *testing.T) {
 	prop := common.Prop()
 	res := common.NewResult("restmodel")
+	startWatchdog(res)
 	res.Rule = "random histories (create / DELETE / TryLock, Unlock, Renew requests with valid, ended, garbage and missing cookies and undecodable bodies / gRPC connections and requests on the same server / time steps to deadline-1ns, deadline, deadline+1ns of a session's idle timer and of leases) on the real gateway + lock server in virtual time and on the Lean model M4; distinct = distinct (timeout, op sequence); non-trivial = at least one accepted request, one refused request or session end, and one grant"
 	defer func() {
 		if err := res.Write(); err != nil {
